@@ -225,7 +225,7 @@ def cmp_cases(rng, bits):
 
 
 def _gen(rng, tier):
-    nh = 2500 if tier == 'quick' else 60000
+    nh = 2500 if tier == 'quick' else 800000
     draws = 1000 if tier == 'quick' else 10000
     for bits in WIDTHS:
         for kind in GENS:
